@@ -138,15 +138,22 @@ def finish(report: Report, model_stats: Dict[str, Any], t0: float, files: Dict[s
         f"known={len(matched)} violations={len(violations)}"
     )
 
-    REPLAY_DIR.mkdir(parents=True, exist_ok=True)
-    # remove stale replay files of this property
-    for p in REPLAY_DIR.glob(f"{prop}-*.json"):
-        try:
-            p.unlink()
-        except OSError:
-            pass
+    no_ev = bool(os.environ.get("JPSA_NO_EVIDENCE"))
+    if not no_ev:
+        REPLAY_DIR.mkdir(parents=True, exist_ok=True)
+        # remove stale replay files of this property
+        for p in REPLAY_DIR.glob(f"{prop}-*.json"):
+            try:
+                p.unlink()
+            except OSError:
+                pass
     for i, f in enumerate(violations, 1):
         rp = REPLAY_DIR / f"{prop}-{i}.json"
+        if no_ev:
+            print(f"VIOLATION property={prop} replay={rp}")
+            loc = f"{f.file}:{f.line}" if f.file else f.site
+            print(f"  rule={f.rule} at {loc} in {f.site} key={f.key}: {f.message}")
+            continue
         with open(rp, "w", encoding="utf-8") as fd:
             json.dump(
                 {
@@ -213,6 +220,8 @@ def finish(report: Report, model_stats: Dict[str, Any], t0: float, files: Dict[s
         "wall_s": round(time.time() - t0, 3),
         "violations": len(violations),
     }
+    if os.environ.get("JPSA_NO_EVIDENCE"):
+        return 1 if violations else 0
     EVIDENCE_DIR.mkdir(parents=True, exist_ok=True)
     tmp = EVIDENCE_DIR / f".{prop}.json.tmp"
     with open(tmp, "w", encoding="utf-8") as fd:
